@@ -10,6 +10,11 @@ pub fn byte(b: u8) -> String {
     format!("x{:02x}", b)
 }
 pub fn blob(b: &[u8]) -> String {
+    if b.len() > 2048 {
+        // Coq's numeral parser overflows its stack on very long literals: chunk
+        let parts: Vec<String> = b.chunks(2048).map(blob).collect();
+        return format!("(concat [{}])", parts.join("; "));
+    }
     if b.iter().all(|&x| x == 0) {
         return format!("(blob {} 0)", b.len());
     }
@@ -167,7 +172,9 @@ impl Report {
         }
     }
     pub fn violate(&mut self, class: &str, what: &str, detail: String) {
-        if self.violations.len() < 50 {
+        // keep the first few of every class (a flood of one class must not hide another)
+        let same = self.violations.iter().filter(|v| v.class == class).count();
+        if same < 3 && self.violations.len() < 300 {
             self.violations.push(Violation {
                 class: class.into(),
                 what: what.into(),
